@@ -163,7 +163,10 @@ def run(ctx):
     depth = 2 if ctx.quick else 3
     explore.bfs(ctx, spec, max_depth=depth, label="bts", roots=roots, probe_final=True)
     spec2 = Spec(ctx.tier, target=2, name="child")
-    croots = [(), (("pctrl", 0, "RXTUNE %d" % F2), ("pctrl", 0, "TXTUNE %d" % F1), ("pctrl", 0, "POWERON"))]
+    croots = [(), (("pctrl", 0, "RXTUNE %d" % F2), ("pctrl", 0, "TXTUNE %d" % F1), ("pctrl", 0, "POWERON")),
+              # hopping configured on the child, then a power cycle of its parent: the child has forgotten it
+              (("pctrl", 2, "SETFH 5 1 %d %d %d %d" % (F2, F1, F1, F2)), ("pctrl", 0, "RXTUNE %d" % F2),
+               ("pctrl", 0, "TXTUNE %d" % F1), ("pctrl", 0, "POWERON"), ("pctrl", 0, "POWEROFF"))]
     explore.bfs(ctx, spec2, max_depth=1 if ctx.quick else 2, label="child", roots=croots, probe_final=True)
     c = ctx.cov
     c["alphabet_size"] = len(spec.alpha)
@@ -176,7 +179,7 @@ def run(ctx):
     c["distinct_nontrivial"] = c["states"]
     ctx.assumptions += ["well-formed commands only (integer arguments); malformed input is C14's subject",
                         "status of known verbs with an undocumented argument count is not judged (reply format and absence of effect are)",
-                        "negative randomisation thresholds, odd SETFH channel lists: effect on forwarding not judged",
+                        "odd SETFH channel lists, negative MAIO: effect on forwarding not judged",
                         "exploration bounded to %d command(s) beyond each of the seeded prior states; all commands of the alphabet fired in every such state" % depth]
 
 
